@@ -107,6 +107,19 @@ Strengthening done because of seeded changes (see also section 8):
   (what `set_params`/`instantiate` on a partitioned circuit produces); the
   oracle was already written against the operation's parameters. Required
   counter `blocks_with_params_differing_from_stored_ones`.
+* **C14 (mut C14-b: the worker's incoming thread only treats `EOFError` as a
+  lost boss; any other read failure kills the thread and leaves the worker
+  alive).** The fake transport of the simulation only ever produced EOF for a
+  dead peer, so no simulated crash could reach the changed line (this was
+  seen by reading the patch; the old check was not run against it). Real TCP
+  answers with RST when a socket goes away with unread data, or is written to
+  after it went away, and the peer's read then fails with
+  `ConnectionResetError`. Added that as an opt-in model of the transport
+  (`resets`, used by half of C14's bases; counters
+  `reads_failed_with_connection_reset`, `executions_with_tcp_reset_model` are
+  required): the change is then reported as
+  `survivor:runtime_node_still_running`. The unchanged tree is clean under
+  the new model (all read sites catch both errors).
 
 All other seeded changes were caught by the quick tier as it stood. What each
 needs in order to manifest is in the table; the catching violation kinds are
